@@ -170,6 +170,20 @@ func genCase(t *rapid.T) Case {
 			full := int64(8 + c.Boxes[i].Payload)
 			last := i == len(c.Boxes)-1
 			kinds := []string{"small", "small", "header-only"}
+			// offset of box i, and whether an mdat precedes it (the parser counts offsets from the end of the last complete mdat)
+			off, mdatBefore := int64(0), false
+			for j := 0; j < i; j++ {
+				if c.Boxes[j].Real != "" {
+					off += int64(len(real(c.Boxes[j].Real)))
+					mdatBefore = mdatBefore || c.Boxes[j].Real == "3_chunked.m4s"
+				} else {
+					off += int64(8 + c.Boxes[j].Payload)
+					mdatBefore = mdatBefore || c.Boxes[j].Type == "mdat"
+				}
+			}
+			if off > 0 && !mdatBefore {
+				kinds = append(kinds, "wrap", "wrap")
+			}
 			if last {
 				kinds = append(kinds, "plus", "big")
 			} else if c.Boxes[i+1].Real == "" {
@@ -182,6 +196,11 @@ func genCase(t *rapid.T) Case {
 				sz = 8
 				if c.Boxes[i].Type == "mdat" || c.Boxes[i].Payload < 8 {
 					sz = int64(rapid.IntRange(0, 7).Draw(t, "sz"))
+				}
+			case "wrap": // offset + size runs (just) past 2^32: a 32-bit sum would wrap around to an earlier offset
+				sz = (int64(1) << 32) - off + int64(rapid.SampledFrom([]int{0, 0, 8, 16, int(off)}).Draw(t, "back"))
+				if sz > 0xffffffff {
+					sz = 0xffffffff
 				}
 			case "plus": // last box longer than the stream
 				sz = full + int64(rapid.IntRange(1, 64).Draw(t, "d"))
